@@ -79,6 +79,9 @@ static int drv_primegen(const Opts &o)
 		// cofactor at 24 bits or more
 		if (qs + 24 > ps) qs = ps / 2;
 		gen_line("lprime", ps, qs, mr, zero);
+		// tiny subgroup sizes with a cofactor at least as long as q: the only sizes at which a drawn k is a multiple of q
+		// with noticeable probability, i.e. at which the test gcd(k, q) = 1 ever refuses a candidate (seeded change C09c)
+		for (int tiny = 0; tiny < 10; tiny++) { unsigned long tq = 3 + g.below(4), tp = 2 * tq + 2 + g.below(7); gen_line("lprime", tp, tq, 2 + g.below(20), zero); }
 		mpz_set_ui(kin, 1 + g.below(1000000)); if (g.below(4) == 0) mpz_set_ui(kin, 1); if (g.below(6) == 0) gen_bits(kin, g, ps - qs + 7), mpz_add_ui(kin, kin, 1);
 		// the cofactor is fixed by the prefix; when it only just reaches its size, q·k + 1 falls short of psize bits for
 		// (almost) every q and the library redraws for a very long time: take prefixes that leave at least about
